@@ -3,6 +3,7 @@ package server
 import (
 	"bytes"
 	"context"
+	"encoding/binary"
 	"errors"
 	"github.com/aldas/go-modbus-client/packet"
 )
@@ -41,11 +42,18 @@ func (m *ModbusTCPAssembler) handle(ctx context.Context, data []byte) []byte {
 
 	resp, err := m.Handler.Handle(ctx, p)
 	if err != nil {
+		// error response must be addressed to the request it answers (same transaction id, unit id and function code)
+		errResp := packet.ErrorResponseTCP{
+			TransactionID: binary.BigEndian.Uint16(data[0:2]),
+			UnitID:        data[6],
+			Function:      data[7],
+			Code:          packet.ErrUnknown,
+		}
 		var target *packet.ErrorParseTCP
 		if errors.As(err, &target) {
-			return target.Bytes()
+			errResp.Code = target.Packet.Code
 		}
-		return packet.NewErrorParseTCP(packet.ErrUnknown, err.Error()).Bytes()
+		return errResp.Bytes()
 	}
 
 	return resp.Bytes()
